@@ -28,7 +28,7 @@ RULE = ("one fitted model per case (all families/profiles) x a random history of
         "distinct_nontrivial = distinct (family, history of (span, observed?) pairs) with at least two different spans.")
 ASSUMPTIONS = ["DatetimeIndex.freq of caller objects is recorded, not judged (cache-like metadata that pandas only lets agree with the values)",
                "model state is judged on what the statement names: the serialised form and the predictions (private caches are recorded, not judged)"]
-REQUIRED_REACH = {"predict.json_before_after": 25, "predict.history_vs_pristine": 25, "data.fit_fingerprint": 6, "data.predict_fingerprint": 25, "fit.model_added_disqualification": 1, "fit.model_added_disqualification_to_an_already_disqualified_baseline": 1, "data.second_fit_on_the_same_data_object": 3,
+REQUIRED_REACH = {"predict.json_before_after": 25, "predict.history_vs_pristine": 25, "data.fit_fingerprint": 6, "data.predict_fingerprint": 25, "fit.model_added_disqualification": 1, "fit.model_added_disqualification_to_an_already_disqualified_baseline": 1, "data.second_fit_on_the_same_data_object": 3, "sets.usage_bearing_with_weather_gaps": 20,
                   "ctor.caller_frame_fingerprint": 20, "alias.df_probe": 6, "alias.prediction_probe": 6,
                   "history.other_model_of_another_configuration_used_in_between": 6, "alias.view_read": 10, "data.weighted_billing_model_used": 1}
 
@@ -141,6 +141,13 @@ def run_model_case(spec, keys):
                 # reporting data carrying irradiance for a model fitted without it (the model emits a mismatch notice)
                 g = FT.synth_hourly(tz=tz, start=st, days=days, seed=rng, ghi=True)["ghi"]
                 sets[(name, obs)] = sets[(name, obs)].assign(ghi=g.values)
+    # weather gaps in the sets that carry usage (hours / days without a temperature value): what predict does about them must not reach the
+    # data object it was handed
+    for key_ in (("month", True), ("partial", True), ("year", True)):
+        fr_ = sets[key_]
+        kk_ = rng.choice(len(fr_), size=max(2, len(fr_) // 60), replace=False)
+        fr_.iloc[kk_, fr_.columns.get_loc("temperature")] = np.nan
+    I.reach("sets.usage_bearing_with_weather_gaps", 3)
     L = spec["length"]
     order = [list(sets)[int(i)] for i in rng.integers(0, len(sets), L)]
     if ("year", True) not in order:
